@@ -125,6 +125,9 @@ def gen_labware(rng, kind, name, regime, size_class, idx, opts):
             spec["names"] = [
                 (rng.choice(COMPONENTS) if (ini[c] > 0 and rng.random() < 0.7) else None) for c in range(cols)
             ]
+        if rng.random() < 0.1:
+            spec["via_labware"] = True
+            spec["names"] = [(f"{rng.choice(COMPONENTS)}_c{c}" if ini[c] > 0 else None) for c in range(cols)]
     # sometimes the user hands the initial volumes over as float32 / integer arrays (only when every value is
     # exactly representable there, so the configuration itself is unchanged)
     import struct
@@ -210,6 +213,16 @@ def build_labware(rt, spec, shared=None, index=None):
             min_volume=dec(spec["min"]), max_volume=dec(spec["max"]),
             initial_volumes=arr,
             component_names=spec.get("names"),
+        )
+    if spec.get("via_labware"):
+        # the documented low-level way to make a trough: Labware(rows=1, virtual_rows=N) - every filled column
+        # carries an explicit name here, so default naming (which differs on this path) does not come into play
+        names = {f"A{c + 1:02d}": nm for c, nm in enumerate(spec["names"]) if nm is not None}
+        return rt.Labware(
+            spec["name"], 1, spec["cols"],
+            min_volume=dec(spec["min"]), max_volume=dec(spec["max"]),
+            initial_volumes=np.array(dec(spec["initial"]), dtype=float).reshape(1, -1),
+            virtual_rows=spec["vrows"], component_names=names,
         )
     return rt.Trough(
         spec["name"], spec["vrows"], spec["cols"],
